@@ -649,12 +649,10 @@ var ProfileC18Params = func() *Profile {
 // them back, unstake a part, and again – instead of waiting for the grammar to line those four steps up for one
 // account. Every step is sized from the account's real state on the chain.
 func c18StakerLife(h *History, g *G) []*Op {
-	if g.Int("c18/life?", 0, 1) != 0 {
-		return nil
-	}
 	u := h.W.Accounts[0]
 	addr := u.Addr.String()
-	if g.Busy[addr] {
+	g.Busy[addr] = true // this account does nothing else in the whole history
+	if g.Int("c18/life?", 0, 1) != 0 {
 		return nil
 	}
 	del := sdkmath.ZeroInt()
@@ -673,7 +671,11 @@ func c18StakerLife(h *History, g *G) []*Op {
 	case !del.IsPositive():
 		msg = &ctypes.MsgStake{Creator: addr, Amount: sdkmath.NewInt(int64(g.Int("c18/life-stake", 1_000_000, 5_000_000_000))), Asset: paramtypes.Elys, ValidatorAddress: h.W.ValAddr}
 	case !committed.IsPositive() && claimed.IsPositive():
-		msg = &ctypes.MsgCommitClaimedRewards{Creator: addr, Amount: pct("c18/life-commit", claimed, 50, 100), Denom: paramtypes.EdenB}
+		amt := claimed
+		if g.Bool("c18/life-commit-part") {
+			amt = pct("c18/life-commit", claimed, 50, 100)
+		}
+		msg = &ctypes.MsgCommitClaimedRewards{Creator: addr, Amount: amt, Denom: paramtypes.EdenB}
 	case committed.IsPositive() && step%2 == 0:
 		msg = &ctypes.MsgUncommitTokens{Creator: addr, Amount: pct("c18/life-uncommit", committed, 1, 60), Denom: paramtypes.EdenB}
 		h.Ext["c18-life-step"] = step + 1
@@ -683,7 +685,7 @@ func c18StakerLife(h *History, g *G) []*Op {
 	}
 	g.Busy[addr] = true
 	h.Labels["c18-staker-life-steps"]++
-	return []*Op{{Signer: u, Kind: "c18.staker_life", Msg: msg}}
+	return []*Op{{Signer: u, Kind: "c18.staker_life/" + strings.TrimPrefix(sdk.MsgTypeURL(msg), "/elys.commitment.Msg"), Msg: msg}}
 }
 
 var ProfileC18Staking = func() *Profile {
